@@ -19,6 +19,7 @@ type cliCase struct {
 	outdir  string // compare the files of this directory instead of stdout
 	inproc  string // what the entry point produced
 	inprocD map[string]string
+	outflag string // "-o": also run with the output sent to a file and compare
 }
 
 func cliRun(c cliCase) map[string]interface{} {
@@ -64,6 +65,18 @@ func cliRun(c cliCase) map[string]interface{} {
 		res["cli_same"] = r.Stdout == c.inproc
 		if r.Stdout != c.inproc {
 			res["cli_out"] = trunc(r.Stdout, 600)
+		}
+		if c.outflag != "" && r.Exit == 0 && r.Stdout == c.inproc {
+			// the same run writing to a file: the file must hold what standard output held
+			of := filepath.Join(dir, "cliw-out.txt")
+			r2 := runBinary(gofastaBin(), nil, nil, callDeadline, append(append([]string{}, args...), c.outflag, of)...)
+			b, _ := os.ReadFile(of)
+			if r2.Exit != 0 || r2.Timeout || string(b) != c.inproc {
+				res["cli_same"] = false
+				res["cli_exit"] = r2.Exit
+				res["cli_timeout"] = r2.Timeout
+				res["cli_out"] = "with " + c.outflag + ": " + trunc(string(b), 600)
+			}
 		}
 	}
 	if r.Exit != 0 {
